@@ -15,3 +15,4 @@ PROPERTY SemFifo
 PROPERTY CvFifo
 PROPERTY MailboxFifo
 PROPERTY MessFifo
+PROPERTY SuspendedNoProgress
